@@ -304,17 +304,37 @@ def analyze(case, want_families):
         "hall_number": int(g(ds, "hall_number")),
     }
     res["contract"] = s3_contract(ds, [int(z) for z in cr["numbers"]])
-    sets = a.get_wyckoff_sets_conventional(return_parameters=False)
-    res["sets"] = [[str(s.wyckoff_letter), str(s.element), int(s.atomic_number), int(s.multiplicity), [int(i) for i in s.indices]] for s in sets]
-    conv = a.get_conventional_system()
-    prim = a.get_primitive_system()
 
     def lst(x, f):
         return [None if v is None else f(v) for v in x]
-    res["letters"] = {"original": lst(a.get_wyckoff_letters_original(), str), "primitive": lst(a.get_wyckoff_letters_primitive(), str),
-                      "conventional": lst(a.get_wyckoff_letters_conventional(), str)}
-    res["equiv"] = {"original": lst(a.get_equivalent_atoms_original(), int), "primitive": lst(a.get_equivalent_atoms_primitive(), int),
-                    "conventional": lst(a.get_equivalent_atoms_conventional(), int)}
+
+    # the ORDER in which a caller asks is not prescribed: one case in three asks for the per-atom data of the original
+    # system (and the free-parameter flag) before anything else, one in three asks for everything in reverse order
+    order = case["call_order"] if case.get("call_order") is not None else case["id"] % 3
+    res["call_order"] = order
+    got = {}
+    getters = [
+        ("sets", lambda: a.get_wyckoff_sets_conventional(return_parameters=False)),
+        ("conv", lambda: a.get_conventional_system()),
+        ("prim", lambda: a.get_primitive_system()),
+        ("l_orig", lambda: a.get_wyckoff_letters_original()),
+        ("l_prim", lambda: a.get_wyckoff_letters_primitive()),
+        ("l_conv", lambda: a.get_wyckoff_letters_conventional()),
+        ("e_orig", lambda: a.get_equivalent_atoms_original()),
+        ("e_prim", lambda: a.get_equivalent_atoms_primitive()),
+        ("e_conv", lambda: a.get_equivalent_atoms_conventional()),
+    ]
+    if order == 1:
+        a.get_has_free_wyckoff_parameters()
+        getters = [g_ for g_ in getters if g_[0] in ("l_orig", "e_orig")] + [g_ for g_ in getters if g_[0] not in ("l_orig", "e_orig")]
+    elif order == 2:
+        getters = list(reversed(getters))
+    for name, fn in getters:
+        got[name] = fn()
+    sets, conv, prim = got["sets"], got["conv"], got["prim"]
+    res["sets"] = [[str(s.wyckoff_letter), str(s.element), int(s.atomic_number), int(s.multiplicity), [int(i) for i in s.indices]] for s in sets]
+    res["letters"] = {"original": lst(got["l_orig"], str), "primitive": lst(got["l_prim"], str), "conventional": lst(got["l_conv"], str)}
+    res["equiv"] = {"original": lst(got["e_orig"], int), "primitive": lst(got["e_prim"], int), "conventional": lst(got["e_conv"], int)}
     bt = a._best_transform
     res["perm"] = [[str(k), None if v is None else str(v)] for k, v in bt["permutations"].items()]
     res["identity"] = bool(bt.get("identity", False))
